@@ -166,16 +166,40 @@ def run_jobs(scen_name, jobs, scratch, default_budget, global_deadline):
             sys.stderr.flush()
             pid = os.fork()
             if pid == 0:
+                try:
+                    os.setsid()            # own process group: the whole path tree can be killed at once
+                except OSError:
+                    pass
                 job_main(scen_name, job, rec_path, deadline)
                 os._exit(9)
-            running[pid] = (nxt, rec_path, time.time())
+            running[pid] = (nxt, rec_path, time.time(), deadline)
             nxt += 1
         if not running:
             continue
-        pid, status = os.wait()
+        # reap finished jobs; a job whose tree is still alive well past its deadline (a solver call that
+        # ignores its timeout, an orphaned path process) is killed as a group
+        pid, status = 0, 0
+        try:
+            pid, status = os.waitpid(-1, os.WNOHANG)
+        except ChildProcessError:
+            pid = 0
+        if pid == 0:
+            now = time.time()
+            for jp, (ji_, rp_, t0_, dl_) in list(running.items()):
+                if now > dl_ + 25:
+                    try:
+                        os.killpg(jp, 9)
+                    except (ProcessLookupError, PermissionError):
+                        pass
+            time.sleep(0.05)
+            continue
         if pid not in running:
             continue
-        idx, rec_path, t0 = running.pop(pid)
+        idx, rec_path, t0, _dl = running.pop(pid)
+        try:
+            os.killpg(pid, 9)              # orphaned path processes of a finished job
+        except (ProcessLookupError, PermissionError):
+            pass
         recs = []
         if os.path.exists(rec_path):
             with open(rec_path) as f:
